@@ -12,6 +12,7 @@ import JanetModel.Lib.Spec
 import JanetModel.Lib.Kmp
 import JanetModel.Lib.Sort
 import JanetModel.Lib.Range
+import JanetModel.Lib.Format
 open Driver JanetModel.Lib
 
 inductive V where
@@ -278,6 +279,19 @@ def call (f : String) (args : List V) : Out :=
     (match indexedOf parts, (match rest with | [s] => bytesOf s | _ => some []) with
      | some ps, some sep => (match ps.mapM bytesOf with | some bs => .ok (.str 0 (join bs sep)) args | none => .err args)
      | _, _ => .err args)
+  -- ---------------------------------------------------------------- printf-style subset (Lib/Format.lean)
+  | "string/format", (.str 0 fmt) :: xs =>
+    let fargs := xs.map (fun v => match v with | .int i => Format.FArg.int i | .str _ b => Format.FArg.bytes b | _ => Format.FArg.other)
+    (match Format.format fmt fargs with
+     | .ok out => .ok (.str 0 out) args
+     | .err _ => .err args
+     | .unsupported => .skip)
+  | "buffer/format", (.str 1 b) :: (.str 0 fmt) :: xs =>
+    let fargs := xs.map (fun v => match v with | .int i => Format.FArg.int i | .str _ b => Format.FArg.bytes b | _ => Format.FArg.other)
+    (match Format.format fmt fargs with
+     | .ok out => .ok (.str 1 (b ++ out)) (setArg0 args (.str 1 (b ++ out)))
+     | .err part => .err (setArg0 args (.str 1 (b ++ part)))
+     | .unsupported => .skip)
   -- ---------------------------------------------------------------- slices
   | "string/slice", _ => sliceFn "string" args
   | "symbol/slice", _ => sliceFn "symbol" args
